@@ -12,6 +12,7 @@ from rpylib.montecarlo.path import StochasticJumpPath
 from rpylib.process.process import ProcessRepresentation
 
 LOG = []          # event log of the current run (shared by all deep copies: module global)
+VALUED = [None]   # None: payoffs are sample serials; dict(c0, jit): bounded pseudo-random payoffs (real criteria runs)
 SERIAL = [0]      # next sample serial
 
 
@@ -27,6 +28,10 @@ def emit(**kw):
 def coarse_of(serial: int) -> int:
     """Coarse terminal value attached to sample `serial` (level >= 1); the specification has the same rule."""
     return (serial * 7) % 5 + 1
+
+
+def fine_value(serial: int) -> float:
+    return 10.0 + ((serial * 37) % 11) / 4.0
 
 
 class _Model:
@@ -88,14 +93,20 @@ class ScriptedCoupling:
         s = SERIAL[0]
         emit(e="Sim", lvl=self.level, s=s, coupled=False)
         times = np.array([0.0, 1.0])
-        return StochasticJumpPath(times, np.zeros(2), np.array([0.0, float(s)]))
+        f = float(s) if VALUED[0] is None else fine_value(s)
+        return StochasticJumpPath(times, np.zeros(2), np.array([0.0, f]))
 
     def simulate_one_path_with_coupling(self):
         SERIAL[0] += 1
         s = SERIAL[0]
         emit(e="Sim", lvl=self.level, s=s, coupled=True)
         times = np.array([0.0, 1.0])
-        jumps = np.array([[0.0, float(s)], [0.0, float(coarse_of(s))]])
+        if VALUED[0] is None:
+            f, c = float(s), float(coarse_of(s))
+        else:
+            f = fine_value(s)
+            c = f - VALUED[0]["c0"] * 2.0 ** (-self.level) * (1.0 + VALUED[0]["jit"] * (((s * 13) % 3) - 1))
+        jumps = np.array([[0.0, f], [0.0, c]])
         return StochasticJumpPath(times, np.zeros((2, 2)), jumps)
 
 
